@@ -133,6 +133,9 @@ def generate(rng, index, cfg):
                     return pth.rstrip("/") + "/"
                 return pth
             q["paths"] = [respell(x) for x in q["paths"]]
+        if q["paths"] and rng.random() < 0.15:
+            # absolute pathspecs (an editor integration passes the absolute file name); resolved at execution time
+            q["paths"] = ["@ABS:" + os.path.normpath(os.path.join(cwd or ".", x)) if not x.startswith("@") else x for x in q["paths"]]
         if q["api"] == "changed_notebooks" and q["paths"] and len(q["paths"]) == 1 and rng.random() < 0.3:
             q["paths"] = q["paths"][0]  # a bare string is accepted too
         c = rng.random()
@@ -489,6 +492,16 @@ class Runner:
             if q.get("argv"):
                 q["argv"] = [sha_tok(t) for t in q["argv"]]
             self.stat("queries_with_abbreviated_sha")
+        def abs_tok(t):
+            if isinstance(t, str) and t.startswith("@ABS:"):
+                return os.path.normpath(os.path.join(w.work, t[5:]))
+            return t
+        pp0 = q.get("paths")
+        if pp0 and any(isinstance(t, str) and t.startswith("@ABS:") for t in ([pp0] if isinstance(pp0, str) else pp0)):
+            q = dict(q, paths=abs_tok(pp0) if isinstance(pp0, str) else [abs_tok(t) for t in pp0])
+            self.stat("queries_with_absolute_pathspec")
+        if q.get("argv") and any(isinstance(t, str) and t.startswith("@ABS:") for t in q["argv"]):
+            q = dict(q, argv=[abs_tok(t) for t in q["argv"]])
         raw_argv = None
         git_mode = True
         if q["api"] in ("cli", "cli_raw"):
